@@ -456,7 +456,41 @@ impl ServerChild {
 
     /// POST the document; returns None on transport failure / timeout.
     pub fn post(&mut self, doc: &[u8], add_metadata: Option<bool>, timeout: Duration) -> Option<HttpResult> {
-        let mut s = std::net::TcpStream::connect(("127.0.0.1", self.port)).ok()?;
+        http_post(self.port, doc, add_metadata, timeout)
+    }
+}
+
+/// `n` clients POST the same document at the same moment (released by a barrier), `rounds`
+/// times. The server is a real process with its own scheduler, so which requests overlap
+/// inside it is not decided here; what is checked is that it does not matter.
+pub fn http_burst(port: u16, doc: &[u8], add_metadata: Option<bool>, n: usize, rounds: usize, timeout: Duration) -> Vec<Option<HttpResult>> {
+    let barrier = std::sync::Arc::new(std::sync::Barrier::new(n));
+    let doc = std::sync::Arc::new(doc.to_vec());
+    let mut handles = Vec::new();
+    for _ in 0..n {
+        let (b, d) = (barrier.clone(), doc.clone());
+        handles.push(std::thread::spawn(move || {
+            let mut v = Vec::new();
+            for _ in 0..rounds {
+                b.wait();
+                v.push(http_post(port, &d, add_metadata, timeout));
+            }
+            v
+        }));
+    }
+    let mut all = Vec::new();
+    for h in handles {
+        match h.join() {
+            Ok(v) => all.extend(v),
+            Err(_) => all.push(None),
+        }
+    }
+    all
+}
+
+pub fn http_post(port: u16, doc: &[u8], add_metadata: Option<bool>, timeout: Duration) -> Option<HttpResult> {
+    {
+        let mut s = std::net::TcpStream::connect(("127.0.0.1", port)).ok()?;
         s.set_read_timeout(Some(timeout)).ok()?;
         s.set_write_timeout(Some(timeout)).ok()?;
         let uri = match add_metadata {
